@@ -25,6 +25,7 @@ func init() {
 			"(D5, cont.) a lease found under the same hostname or address that belongs to another device always fails the validation, whatever else is true of it (expired, dynamic). " +
 			"(D5, cont. 2) a configuration is accepted only if the pool's own membership test (ipRange.contains, the one the allocator uses) excludes the gateway. " +
 			"(D2, cont.) the allocator takes candidate addresses from the range's own enumeration (ipRange.find), the one whose bounds contains() and offset() share. " +
+			"(D1, cont.) in the DECLINE handler the by-client removal of the old lease never runs after the replacement was allocated. " +
 			"Not decided: uniqueness of addresses/clients over message histories, pool exhaustion, expiry arithmetic, restart equivalence beyond 'stored after each change'.",
 		RuleText: "Mutations are SSA stores/map updates/deletes/bitset sets on the four table fields and stores to dhcpsvc.Lease fields; obligations propagate from callee to callers until a function without module callers is reached.",
 		Assumptions: []string{
@@ -147,6 +148,37 @@ func runC10(c *Ctx) {
 
 	a.persistAfterMutate()
 	a.registeredOnce()
+	// a removal that matches by hardware address (rmDynamicLease removes every dynamic lease of that client or
+	// address) must not run after a new lease was made for the same client in the same handler: it would take the
+	// fresh lease out of the table again while the client is told to use it
+	for _, fk := range []string{"(*dhcpd.v4Server).handleDecline"} {
+		fn := p.Fn(fk)
+		if fn == nil {
+			r.Undecided("C10-D1", fk, "-", "anchor not found")
+			continue
+		}
+		isAlloc := core.IsCallTo(false, "(*dhcpd.v4Server).allocateLease", "(*dhcpd.v4Server).reserveLease", "(*dhcpd.v4Server).addLease")
+		isRm := core.IsCallTo(false, "(*dhcpd.v4Server).rmDynamicLease", "(*dhcpd.v4Server).rmLease")
+		var from []core.Point
+		nRm := 0
+		for _, b := range fn.Blocks {
+			for i, in := range b.Instrs {
+				if isAlloc(in) {
+					from = append(from, core.Point{Block: b, Idx: i + 1})
+				}
+				if isRm(in) {
+					nRm++
+				}
+			}
+		}
+		found, tr := false, []*ssa.BasicBlock(nil)
+		if len(from) > 0 {
+			found, tr, _ = core.Reach(core.Query{From: from, Target: isRm})
+		}
+		r.Check(len(from) > 0 && nRm > 0 && !found, "C10-D1", "replacement-made-after-the-old-lease-is-gone:"+fk, p.FnPos(fn),
+			"the declined lease is removed before its replacement is allocated",
+			"the handler removes leases by client after it has allocated the replacement: the fresh lease is deleted from the table too, the client is acknowledged an address nobody holds, and the next client gets the same address", p.TraceString(tr))
+	}
 	a.siblings()
 	a.validation()
 	a.storePath()
@@ -665,11 +697,12 @@ func (a *c10) validation() {
 				continue
 			}
 			ret, ok := core.AsReturn(b.Instrs[len(b.Instrs)-1])
-			if !ok || len(ret.Results) != 1 {
+			if !ok || len(ret.Results) < 1 {
 				continue
 			}
 			nRet++
-			tr := map[string]bool{"(net.IP).To4": true, "(net.IP).To16": true}
+			// the address is the first result, in whatever address type
+			tr := map[string]bool{"(net.IP).To4": true, "(net.IP).To16": true, "net/netip.AddrFrom4": true, "net/netip.AddrFromSlice": true, "net/netip.AddrFrom16": true}
 			for k := range core.DefaultTransparent {
 				tr[k] = true
 			}
